@@ -207,13 +207,17 @@ def title_nodes(spec):
     for k, t in spec:
         if k == "t":
             out.append(n.Text((0,), t))
+        elif k == "r":
+            # a role written without text of its own (``:ref:`reftarget```): its text is the title of what it refers to, filled
+            # in by the last pass of the postprocessor
+            out.append(n.RefRole((0,), [], "std", "label", t, "", None, None))
         else:
             out.append({"e": n.Emphasis, "s": n.Strong, "l": n.Literal}[k]((0,), [n.Text((0,), t)]))
     return out
 
 
 def title_text(spec):
-    return "".join(t for _, t in spec)
+    return "".join(t for k, t in spec if k != "r")
 
 
 class C15(core.PropertyCheck):
@@ -431,8 +435,12 @@ class C15(core.PropertyCheck):
         cut = rng.randint(0, len(text))
         kinds = rng.choice([["t"], ["t", "e"], ["e", "t"], ["t", "l"], ["s"], ["t", "e"]])
         if len(kinds) == 1 or cut in (0, len(text)):
-            return [[kinds[0], text]]
-        return [[kinds[0], text[:cut]], [kinds[1], text[cut:]]]
+            out = [[kinds[0], text]]
+        else:
+            out = [[kinds[0], text[:cut]], [kinds[1], text[cut:]]]
+        if rng.random() < 0.15:
+            out = out[:1] + [["t", " "], ["r", "reftarget"]] + ([["t", " "]] + out[1:] if out[1:] else [])
+        return out
 
     def g_project(self, rng):
         fids = rng.sample(FILEIDS, rng.randint(1, 4))
@@ -465,6 +473,7 @@ class C15(core.PropertyCheck):
                     t = self.g_title(rng) or [["t", "H"]]
                     items.append({"t": "heading", "id": rng.choice(["h", "top", "a-b", "std-label-a-b"]), "title": t})
             pages.append({"fileid": fid, "items": items})
+        pages.append({"fileid": "zz-reftarget.txt", "items": [{"t": "label", "ids": ["reftarget"], "title": [["t", "Target Title"]]}]})
         return {"kind": "project", "pages": pages}
 
     def generate(self, rng, budget, tier):
@@ -606,7 +615,8 @@ class C15(core.PropertyCheck):
             for node in pp.walk(page.ast):
                 if isinstance(node, n.Target) and node.html_id is not None:
                     ids = [i for t in node.get_child_of_type(n.TargetIdentifier) for i in t.ids]
-                    anchors.append({"id": node.html_id, "names": ids, "domain": node.domain, "name": node.name})
+                    shown = "".join(c.get_text() for t in node.get_child_of_type(n.TargetIdentifier) for c in t.children)
+                    anchors.append({"id": node.html_id, "names": ids, "domain": node.domain, "name": node.name, "title": shown})
                 elif isinstance(node, n.Heading) and first_heading is None:
                     first_heading = "".join(c.get_text() for c in node.children)
             pages[fid.as_posix()] = {"anchors": anchors, "first_heading": first_heading}
@@ -783,13 +793,16 @@ class C15(core.PropertyCheck):
             if e["prio"] != -1 or e["uri_base"] != e["uri"]:
                 return f"entry {e['key']}: priority/uri_base not as generated: {e}"
             if role == "std:ext-doc":
-                if sep or re.sub(r"\.(txt|rst|yaml|ast)$", "", fid) != e["name"] or pg["first_heading"] != (e["display"] or ""):
+                if sep or re.sub(r"\.(txt|rst|yaml|ast)$", "", fid) != e["name"] or re.sub(r"\s+", " ", pg["first_heading"] or "").strip() != (e["display"] or ""):
                     return f"doc entry {e} does not describe page {fid} (first heading {pg['first_heading']!r})"
                 continue
             hit = [a for a in pg["anchors"] if a["id"] == anchor]
             if not sep or not hit:
                 return f"entry {e['key']} points to {e['uri']!r} but page {fid} carries no target with html id {anchor!r}"
             a = hit[0]
+            shown = re.sub(r"\s+", " ", a.get("title") or "").strip()
+            if "title" in a and (e["display"] or "") != shown:
+                return (f"entry {e['key']} has the display title {e['display']!r}; the built page shows the target's title as {shown!r}")
             if e["name"] not in [re.sub(r"\s+", " ", x) for x in a["names"]] or ALIASES.get(f"{a['domain']}:{a['name']}", f"{a['domain']}:{a['name']}") != role:
                 return f"entry {e['key']} points to {e['uri']!r}, which is the anchor of {a} on {fid}"
         # every target of the project is listed under its canonical name. When one key is defined more than once
